@@ -232,6 +232,53 @@ def _run_machines(mod, tier, S, n, col):
         run_state_machine_as_test(seed(S)(M), settings=st_)
 
 
+def _corpus_preemptions(mod, tier, shard, nshards, col):
+    """Bounded schedule enumeration around the regression corpus: for every stored program (its schedule dropped) every
+    schedule with exactly one forced switch - decision index x thread to switch to - and, in the thorough tier, every
+    schedule with two forced switches at most WINDOW decisions apart.  The programs are the small shrunk ones that once
+    exposed a defect or a seeded change; one-line race windows next to them are covered by construction, not by chance."""
+    cfg = dict({'threads': 3, 'max_decisions': {'quick': 400, 'thorough': 1500}, 'window': 12}, **mod.CORPUS_PREEMPTIONS)
+    d = os.path.join(ROOT, 'corpus', mod.ID)
+    seen = set()
+    k = 0
+    if not os.path.isdir(d):
+        return
+    for fn in sorted(os.listdir(d)):
+        if not fn.endswith('.json'):
+            continue
+        doc = json.load(open(os.path.join(d, fn)))
+        case = doc['case'] if 'case' in doc else doc
+        if not isinstance(case, dict) or 'sched' not in case:
+            continue
+        base = dict(case, sched={'mode': 'none'})
+        h = case_hash(base)
+        if h in seen or (hasattr(mod, 'valid') and not mod.valid(base)):
+            continue
+        seen.add(h)
+        res = mod.run_case(base)
+        nd = int(res.stats.get('decisions', 0))
+        col.stats['preemption_programs'] = col.stats.get('preemption_programs', 0) + (1 if shard == 0 else 0)
+        lim = min(nd + 4, cfg['max_decisions'][tier])
+        tos = range(1, cfg['threads'] + 1)
+        for dec in range(1, lim):
+            for to in tos:
+                k += 1
+                if k % nshards == shard:
+                    c = dict(base, sched={'mode': 'sparse', 'pre': [[dec, to]]})
+                    col.add(c, mod.run_case(c))
+                    col.stats['single_preemptions'] = col.stats.get('single_preemptions', 0) + 1
+        if tier == 'thorough':
+            for dec in range(1, lim):
+                for dec2 in range(dec + 1, min(dec + 1 + cfg['window'], lim + cfg['window'])):
+                    for to in tos:
+                        for to2 in tos:
+                            k += 1
+                            if k % nshards == shard:
+                                c = dict(base, sched={'mode': 'sparse', 'pre': [[dec, to], [dec2, to2]]})
+                                col.add(c, mod.run_case(c))
+                                col.stats['double_preemptions'] = col.stats.get('double_preemptions', 0) + 1
+
+
 def worker(args):
     pid, tier, seed_, shard, nshards = args
     sys.setrecursionlimit(10000)
@@ -257,6 +304,8 @@ def worker(args):
                     if i % nshards == shard:
                         col.add(case, mod.run_case(case))
                         col.stats['enumerated'] = col.stats.get('enumerated', 0) + 1
+        if getattr(mod, 'CORPUS_PREEMPTIONS', None) is not None:
+            _corpus_preemptions(mod, tier, shard, nshards, col)
         if hasattr(mod, 'extra') and shard == 0:
             mod.extra(tier, seed_, col)
         # collect-then-shrink: shrink up to 3 new buckets in this shard
